@@ -49,15 +49,27 @@ def node_classes():
 # line protocol
 # --------------------------------------------------------------------------
 
+FLAGS = ("E", "I", "D", "K")
+KNOWN_LATE_SIG = "deferred-late-registration:existing-items-unhooked"
+
+
 def parse_mode(s):
-    """'E' = value-equality nodes + equal clones on replacement, 'I' / nothing = identity nodes."""
-    w = s.split()
-    return "E" if w and w[0] == "E" else "I"
+    """Header flags: 'E' = value-equality nodes + equal clones on replacement; 'D' = deferred
+    registration, made by the @on_trait_change decorator on the root's class when the history
+    starts with `rg`, by on_trait_change(root._h, name, deferred=True) otherwise / later;
+    'K' = deferred=True keyword with a plain function handler."""
+    out = ""
+    for w in s.split():
+        if w not in FLAGS:
+            break
+        if w != "I":
+            out += w
+    return out
 
 
 def parse_name(s):
     w = s.split()
-    if w and w[0] in ("E", "I"):
+    while w and w[0] in FLAGS:
         w = w[1:]
     arity = int(w[0])
     links = [(t[0], t[1] == ".") for t in w[1:-1]]
@@ -268,7 +280,7 @@ def random_name(rng):
 
 
 def show_name(arity, links, final, mode="I"):
-    return ("#" if arity in (1, 2) else "") + ("E " if mode == "E" else "") + " ".join([str(arity)] + [a + ("." if n else ":") for a, n in links] + [final])
+    return ("#" if arity in (1, 2) else "") + "".join(f + " " for f in mode if f in "EDK") + " ".join([str(arity)] + [a + ("." if n else ":") for a, n in links] + [final])
 
 
 def show_ops(ops):
@@ -277,12 +289,25 @@ def show_ops(ops):
 
 def random_case(rng, name=None, cap=26):
     arity, links, final = name or random_name(rng)
-    mode = "E" if rng.random() < 0.3 else "I"
-    eq = mode == "E"
+    mode = "E" if rng.random() < 0.3 else ""
+    r = rng.random()
+    if r < 0.18:
+        mode += "D"
+    elif r < 0.30:
+        mode += "K"
+    eq = "E" in mode
+    if ("D" in mode or "K" in mode) and name is None:
+        # deferred registrations matter for container first links
+        if rng.random() < 0.7:
+            links = [(rng.choice("kb"), links[0][1])] + links[1:]
+        if arity in (1, 2):
+            links = [(a, False) for a, _ in links]
     sh = Shadow()
     nops = rng.randint(1, 12)
     style = rng.random()
-    reg_at = 0 if style < 0.4 else (rng.randint(0, nops // 2) if style < 0.85 else rng.randint(0, nops))
+    reg_at = 0 if style < (0.65 if "D" in mode else 0.4) else (
+        rng.randint(0, nops // 2) if style < 0.85 else rng.randint(0, nops))
+    p_toggle = 0.14 if ("D" in mode or "K" in mode) else 0.06
     ops = []
     for i in range(nops + 1):
         if i == reg_at and not sh.registered:
@@ -299,9 +324,9 @@ def random_case(rng, name=None, cap=26):
                 op = _op_on(rng, sh, rng.randrange(sh.next), rng.choice("ckb"), cap, eq)
             elif r < 0.86:
                 op = [rng.choice(["pv", "px"]), rng.randrange(sh.next)]
-            elif r < 0.92:
+            elif r < 0.86 + p_toggle:
                 op = ["rm"] if sh.registered else ["rg"]
-            elif r < 0.95:
+            elif r < 0.89 + p_toggle:
                 op = ["rg"] if rng.random() < 0.5 else ["rm"]
             else:
                 # malformed stream: unallocated object, bad index, missing key
@@ -315,7 +340,7 @@ def random_case(rng, name=None, cap=26):
     return show_name(arity, links, final, mode) + "|" + show_ops(ops)
 
 
-# 10 fixed names (the last two with value-equality nodes); for each a prefix building a 3-object tree along the name and the
+# 13 fixed names (two with value-equality nodes, three with deferred registrations); for each a prefix building a 3-object tree along the name and the
 # alphabet of the exhaustive histories (every op kind on every object of the tree).
 EXH = [
     ("4 c. c. v", "sc 0 1;sc 1 1"),
@@ -328,6 +353,9 @@ EXH = [
     ("4 b: k. v", "sb 0 0;sk 1 1"),
     ("E 4 k: v", "sk 0 2"),
     ("E 4 b. k. v", "sb 0 0;sk 1 1"),
+    ("D 4 k: v", "sk 0 2"),
+    ("K 4 b. v", "sb 0 0 1"),
+    ("D 0 c. k. v", "sc 0 1;sk 1 1"),
 ]
 
 
@@ -378,46 +406,68 @@ def _calls(l):
 
 
 class World:
-    def __init__(self, arity, links, final, mode="I"):
-        self.eq = mode == "E"
+    def __init__(self, arity, links, final, mode="", deco_first=False):
+        self.eq = "E" in mode
+        self.deferred = "D" in mode or "K" in mode
+        self.method = "D" in mode          # the handler is a method of the root
         self.Node = node_classes()[1 if self.eq else 0]
         self.arity, self.links, self.final = arity, links, final
         self.pool = []
         self.idof = {}
-        self.root = self.new()
         self.registered = False
         self.chain = []            # ListenerItems of the last legacy registration
         self.legacy = []           # recorded legacy calls (canonical or raw)
         self.observed = []
         self.current = None        # (object id, trait short) being changed by the running op
-        self.bad_args = []
+        self.late = None           # ids present in the first container at a deferred rg (F87, fixed in
+        #                            /repo 0c9dae1: a hit with KNOWN_LATE_SIG is a violation again)
         w = self
 
-        if arity == 4:
-            def lh(obj, name, old, new):
-                w.legacy.append((w.idof.get(id(obj), -1), SHORT.get(name, name), old, new))
-        elif arity == 3:
-            def lh(obj, name, new):
-                w.legacy.append((w.idof.get(id(obj), -1), SHORT.get(name, name), None, new))
-        elif arity == 2:
-            def lh(name, new):
-                w.legacy.append((w.current[0], SHORT.get(name, name), None, new))
-        elif arity == 1:
-            def lh(new):
-                w.legacy.append(w.current + (None, new))
+        def rec4(obj, name, old, new):
+            w.legacy.append((w.idof.get(id(obj), -1), SHORT.get(name, name), old, new))
+
+        def rec3(obj, name, new):
+            w.legacy.append((w.idof.get(id(obj), -1), SHORT.get(name, name), None, new))
+
+        def rec2(name, new):
+            w.legacy.append((w.current[0], SHORT.get(name, name), None, new))
+
+        def rec1(new):
+            w.legacy.append(w.current + (None, new))
+
+        def rec0():
+            w.legacy.append(w.current + (None, None))
+        rec = {4: rec4, 3: rec3, 2: rec2, 1: rec1, 0: rec0}[arity]
+        if self.method:
+            # same signatures as methods (ListenerNotifyWrapper counts co_argcount - 1)
+            meth = {4: lambda self, obj, name, old, new: rec4(obj, name, old, new),
+                    3: lambda self, obj, name, new: rec3(obj, name, new),
+                    2: lambda self, name, new: rec2(name, new),
+                    1: lambda self, new: rec1(new),
+                    0: lambda self: rec0()}[arity]
+            meth.__name__ = "_h"
+            if deco_first:
+                # what `@on_trait_change(name)` in a class body does: the listener is
+                # registered (deferred=True) by HasTraits.__init__ of every instance
+                from traits.api import on_trait_change
+                meth = on_trait_change(legacy_name(links, final))(meth)
+            root_cls = type("Root", (self.Node,), {"_h": meth})
+            self.root = self.new(cls=root_cls)
+            self.lh = self.root._h
+            self.pre_registered = deco_first
         else:
-            def lh():
-                w.legacy.append(w.current + (None, None))
-        self.lh = lh
+            self.root = self.new()
+            self.lh = rec
+            self.pre_registered = False
 
         def oh(event):
             w.observed.append(w.canon_event(event))
         self.oh = oh
 
-    def new(self, like=None):
+    def new(self, like=None, cls=None):
         """A fresh object; with value-equality nodes a replacement is an equal CLONE of the
         object it replaces (value copied before the object is inserted anywhere)."""
-        o = self.Node()
+        o = (cls or self.Node)()
         if self.eq and like is not None:
             o.value = like.value
         self.idof[id(o)] = len(self.pool)
@@ -453,6 +503,22 @@ class World:
             lv.append([c for o in lv[-1] for c in self.targets(a, o)])
         return [[self.idof[id(o)] for o in l] for l in lv]
 
+    def under_late(self):
+        """Ids of the objects below (or equal to) the items a badly timed deferred
+        registration did not look at."""
+        if not self.late:
+            return set()
+        seen = set()
+        todo = [self.pool[i] for i in self.late]
+        while todo:
+            o = todo.pop()
+            if self.idof[id(o)] in seen:
+                continue
+            seen.add(self.idof[id(o)])
+            for a in "ckb":
+                todo.extend(self.targets(a, o))
+        return seen
+
     # ---- white box -----------------------------------------------------------
     def active(self):
         return "".join("[%s]" % ",".join(str(i) for i in sorted(self.idof.get(id(o), -1) for o in it.active.keys()))
@@ -473,6 +539,8 @@ class World:
                         continue       # observe's notifiers
                     if n.name is None:
                         kinds.append("U")
+                    elif n.name == "_h" and n.object is not None and n.object() is self.root:
+                        kinds.append("U")      # the user's handler as a method of the root
                     else:
                         ref = n.object
                         item = ref() if ref is not None else None
@@ -491,7 +559,15 @@ class World:
             if self.registered:
                 return None
             name = legacy_name(self.links, self.final)
-            self.root.on_trait_change(self.lh, name)
+            if self.pre_registered:
+                self.pre_registered = False    # done by the decorator while the root was created
+            elif self.deferred:
+                first = self.levels()[1]
+                if self.links[0][0] in "kb" and first:
+                    self.late = set(first)
+                self.root.on_trait_change(self.lh, name, deferred=True)
+            else:
+                self.root.on_trait_change(self.lh, name)
             it = self.root.__dict__["__traits_listener__"][name][-1].listener
             self.chain = []
             while it is not None:
@@ -506,6 +582,7 @@ class World:
             self.root.on_trait_change(self.lh, legacy_name(self.links, self.final), remove=True)
             self.root.observe(self.oh, observe_expr(self.links, self.final), remove=True)
             self.registered = False
+            self.late = None
             return (-1, "rm", False)
         a = [int(x) for x in op[1:]]
         i = a[0]
@@ -628,17 +705,20 @@ def run_case(case):
         pop_exception_handler()
 
 
-def _run(arity, links, final, ops, mode="I"):
+def _run(arity, links, final, ops, mode=""):
     from .seqlib import exc_name
-    w = World(arity, links, final, mode)
+    w = World(arity, links, final, mode, deco_first=("D" in mode and bool(ops) and ops[0][0] == "rg"))
     outs, hits, tags = [], [], set()
     n = len(links)
     tags.add("arity%d" % arity)
-    tags.add("nodes:" + ("value-eq" if mode == "E" else "identity-eq"))
+    tags.add("nodes:" + ("value-eq" if "E" in mode else "identity-eq"))
+    tags.add("registration:" + ("decorator" if w.pre_registered else "deferred-method" if "D" in mode else
+                                "deferred-kwarg" if "K" in mode else "plain"))
     tags.add("links%d" % n)
     ever_registered = False
     for op in ops:
         before = w.levels()
+        late_before = w.under_late()
         was_registered = w.registered
         del w.legacy[:], w.observed[:]
         try:
@@ -689,6 +769,9 @@ def _run(arity, links, final, ops, mode="I"):
                             and not any(oid in before[k] for k in range(1, n))):
                         sig = KNOWN_ITEMS_SIG
                         tags.add("known:items-first-link")
+                    elif not L and oid in late_before:
+                        sig = KNOWN_LATE_SIG
+                        tags.add("known:deferred-late")
                     hits.append(_hit(sig, "legacy handler calls %s, the statement demands %s" % (_calls(L), _calls(exp)),
                                      op=" ".join(op), name=legacy_name(links, final), arity=arity))
                 if sorted(O) != sorted(exp):
@@ -724,9 +807,19 @@ def _run(arity, links, final, ops, mode="I"):
                         hits.append(_hit("final:observe-args", "observe event (%s, %s) for a bump of %d.%s" % (o_, t_, i, t)))
             probe[t] = (lg, ob)
             exp = sorted(lv[n]) if (w.registered and t == final) else []
+            late_now = w.under_late()
+
+            def only_late(got, want):
+                """got misses nothing but objects a badly timed deferred registration skipped"""
+                return (late_now and all(got.count(x) <= want.count(x) for x in set(got))
+                        and set(x for x in want if got.count(x) < want.count(x)) <= late_now)
             if sorted(lg) != sorted(ob):
                 side = "legacy-only" if len(lg) > len(ob) else "observe-only"
-                hits.append(_hit("final-differential:" + side,
+                sig = "final-differential:" + side
+                if only_late(lg, ob):
+                    sig = KNOWN_LATE_SIG
+                    tags.add("known:deferred-late")
+                hits.append(_hit(sig,
                                  "after `%s`: legacy handler fires for %s, observe handler for %s (probing %s)" % (
                                      " ".join(op), _ids(lg), _ids(ob), FINAL[t]),
                                  name=legacy_name(links, final), expr=observe_expr(links, final)))
@@ -734,6 +827,8 @@ def _run(arity, links, final, ops, mode="I"):
                 if sorted(got) != exp:
                     if not w.registered:
                         sig = "unregistered:%s-call" % who
+                    elif who == "legacy" and only_late(got, exp):
+                        sig = KNOWN_LATE_SIG
                     else:
                         sig = "final-reach:%s-%s" % (who, "missed" if len(got) < len(exp) else
                                                      ("multiple" if set(got) == set(exp) else "spurious"))
